@@ -122,6 +122,7 @@ func H_C06_wuf() {
 	q := w.BindQueue()
 	_, ok := q.Add(7)
 	vAssume(ok)
+	vPrologueEnd() // binding and submission are over before anything else runs; the barrier call races with dispatch and completion
 	returned := false
 	w.WaitUntilFinished()
 	returned = true
@@ -143,6 +144,7 @@ func H_C09_pause() {
 	q := w.BindQueue()
 	_, ok := q.Add(7)
 	vAssume(ok)
+	vPrologueEnd() // binding and submission are over before anything else runs; Pause races with the dispatcher
 	err := w.PauseAndWait()
 	quiet = true
 	vAssert("C09.pause-ok", err == nil)
